@@ -73,7 +73,7 @@ Fixpoint rel_loop (tp : str -> str -> Q) (prelast last unit : str) (rest : list 
 Definition threshold_relative (tp : str -> str -> Q) (units : list str) : result (list (list str)) :=
   match units with
   | u0 :: u1 :: u2 :: rest => Ok (rel_loop tp u0 u1 u2 rest [u1; u0] [])
-  | _ => Raise IndexError
+  | _ => Ok [units]                 (* fewer than three units: a single word *)
   end.
 
 Fixpoint abs_loop (below : str -> str -> bool) (last : str) (rest : list str)
@@ -89,7 +89,7 @@ Fixpoint abs_loop (below : str -> str -> bool) (last : str) (rest : list str)
 Definition threshold_absolute (below : str -> str -> bool) (units : list str) : result (list (list str)) :=
   match units with
   | u0 :: rest => Ok (abs_loop below u0 rest [u0] [])
-  | [] => Raise IndexError
+  | [] => Ok [[]]
   end.
 
 (* v <= mean(values), exactly.  ftp/btp: v * n <= sum.  mi: v^n <= product
@@ -132,6 +132,9 @@ Inductive thr := Relative | Absolute.
 
 Definition segment (text : list str) (train_text : option (list str)) (t : thr) (d : dep)
   : result (list str) :=
+  match text with
+  | [] => Ok []
+  | _ =>
   let test_units := units_of text in
   let train_units := match train_text with None => test_units | Some trn => units_of trn end in
   let table := train d train_units in
@@ -140,7 +143,8 @@ Definition segment (text : list str) (train_text : option (list str)) (t : thr) 
                | Absolute => threshold_absolute
                                (fun a b => le_mean d (map snd table) (tp_get d table a b)) test_units
                end;
-  Ok (render cwords).
+  Ok (render cwords)
+  end.
 
 (* does any decision taken on this input lie within rounding distance? *)
 Fixpoint any_adj3 (f : str -> str -> str -> str -> bool) (l : list str) : bool :=
